@@ -123,6 +123,31 @@ def real_api(inv, routes, extra_roots):
                 break
     except Exception as e:
         shape.append(["second-router-on-routed-wiring", "raised", f"{type(e).__name__}:{e}"])
+    # (e) a wiring that is inverted, EDITED IN PLACE (as NestedScheduler.add_exposing_wiring adds the wires of its `expose`
+    #     pseudo-component to the inverse wiring it is given) and converted back: the conversions describe the object as it is
+    #     NOW - every wire that is there at the moment of the conversion, whatever was converted before
+    try:
+        w_e = Wiring(wiring_dict(False, False))
+        iw_e = InverseWiring.from_wiring(w_e)
+        before = set(conns(Wiring.from_inverse_wiring(iw_e)))
+        src_c, src_p = next(((a_, p_) for a_, ports in wiring_dict(False, False).items() for p_ in ports), ("zz_src", "o"))
+        iw_e["zz_new"]["p"] = ComponentPort(src_c, src_p)
+        after = set(conns(Wiring.from_inverse_wiring(iw_e)))
+        want = before | {f"{src_c}:{src_p}>zz_new:p"}
+        if after != want:
+            shape.append(["inverted-edited-converted", "conns", f"{sorted(after)} vs {sorted(want)}"[:300]])
+        else:
+            got_r = EventRouter(iw_e).route(src_c, {src_p: 1})
+            if "zz_new" not in {str(k_) for k_ in got_r}:
+                shape.append(["inverted-edited-converted", "routes", f"route({src_c}.{src_p}) -> {sorted(map(str, got_r))} lacks zz_new"])
+        # ... and the other way round: converted to a Wiring, a wire added there in place, inverted again
+        w_f = Wiring.from_inverse_wiring(InverseWiring.from_wiring(Wiring(wiring_dict(False, False))))
+        w_f["zz_src2"]["o"].add(ComponentPort("zz_new2", "q"))
+        inv_after = set(inv_conns(InverseWiring.from_wiring(w_f)))
+        if "zz_src2:o>zz_new2:q" not in inv_after or not before <= inv_after:
+            shape.append(["converted-edited-inverted", "conns", f"{sorted(inv_after)} lacks the added wire or an old one"[:300]])
+    except Exception as e:
+        shape.append(["inverted-edited-converted", "raised", f"{type(e).__name__}:{e}"])
     out["shape"] = shape + cfg_shape
     return out
 
